@@ -176,8 +176,20 @@ def body_dc(flat=FlatDC, src=Settings.Source, sink=Settings.Sink, c=Option("C", 
 
 ds_dataset_classes = dataset(body_dc)
 
+# collections over ZERO members (their pickled state is falsy), nested in a non-empty one and as a dataset argument
+import labrea as _labrea
+
+expr_empties = _labrea.evaluatable_tuple(_labrea.evaluatable_list(), _labrea.evaluatable_dict({}), _labrea.evaluatable_set(), _labrea.evaluatable_tuple(), ds_a)
+
+
+def body_empties(e=expr_empties, nothing=_labrea.evaluatable_list()):
+    return ("empties", repr(e), nothing)
+
+
+ds_empties = dataset(body_empties)
+
 DISPATCH_KEY = {"ds_ns": "NS.A"}  # (others dispatch on D)
-GRAPHS = {"ds_dataset_classes": ds_dataset_classes, "dc_nested": Settings.Sink, "ds_scaled": ds_scaled, "ds_two_steps": ds_two_steps, "ds_scaled_twice": ds_scaled_twice, "ds_cyc": ds_cyc, "ds_cyc_twice": ds_cyc_twice, "ds_total": ds_total, "ds_total_sig": ds_total_sig, "ds_quiet": ds_quiet, "ds_late": ds_late, "ds_ns": ds_ns, "ns": NS, "typed": typed, "ds_a": ds_a, "ds_c": ds_c, "ds_main": ds_main, "ds_abstract": ds_abstract, "ds_derived": ds_derived, "expr_root": expr_root}
+GRAPHS = {"expr_empties": expr_empties, "ds_empties": ds_empties, "ds_dataset_classes": ds_dataset_classes, "dc_nested": Settings.Sink, "ds_scaled": ds_scaled, "ds_two_steps": ds_two_steps, "ds_scaled_twice": ds_scaled_twice, "ds_cyc": ds_cyc, "ds_cyc_twice": ds_cyc_twice, "ds_total": ds_total, "ds_total_sig": ds_total_sig, "ds_quiet": ds_quiet, "ds_late": ds_late, "ds_ns": ds_ns, "ns": NS, "typed": typed, "ds_a": ds_a, "ds_c": ds_c, "ds_main": ds_main, "ds_abstract": ds_abstract, "ds_derived": ds_derived, "expr_root": expr_root}
 
 
 # decorator form (recorded finding: the name of the function now refers to the Dataset)
